@@ -148,8 +148,13 @@ class EBB3:
             return # ebb_version_string is not a reasonable version number.
 
         ebb_version_string = ebb_version_string.strip()  # Stripped copy, for number comparisons
+        try:
+            self.version_parsed = parse(ebb_version_string)
+        except InvalidVersion:
+            self.version = None         # Not a version number; treat as no version reported
+            self.version_parsed = None
+            return
         self.version = ebb_version_string
-        self.version_parsed = parse(ebb_version_string)
 
 
     def query_nickname(self):
